@@ -32,8 +32,15 @@ type Env struct {
 }
 
 func Compile(s *schema.Node) (*Env, error) {
-	y := s.Yang()
-	m, err := parser.LoadModuleFromString(nil, y)
+	main, mods := s.Modules()
+	y := mods[main]
+	opener := func(name string, ext string) (io.Reader, error) {
+		if t, ok := mods[name]; ok && name != main {
+			return strings.NewReader(t), nil
+		}
+		return nil, nil
+	}
+	m, err := parser.LoadModuleFromString(opener, y)
 	if err != nil {
 		return nil, fmt.Errorf("generated schema does not compile: %w\n%s", err, y)
 	}
